@@ -15,7 +15,7 @@ T4 == << 101, 36, 248, 0 >>
 Secs == << << >>, << 101, 36, 248, 0 >>, << 255, 255, 255, 255 >>, << 2, 37, 169, 53, 159 >>, << 3, 0, 0, 0, 0 >> >>
 RIVecs ==
   [k \in 1..Len(MapSets) |-> SB("NewRouterInfo", 7, [ct |-> 4, pairs |-> MapSets[k], naddr |-> k % 3, pubsec |-> PadTo(T4, 8), pubneg |-> FALSE, pubns |-> 0], 64, << >>, k)]
-  \o Cross2(<< 0, 1, 2, 3, 16, 255 >>, << 0, 4 >>, LAMBDA n, ct : SB("NewRouterInfo", 7, [ct |-> ct, pairs |-> MapSets[3], naddr |-> n, pubsec |-> PadTo(T4, 8), pubneg |-> FALSE, pubns |-> 0], 64, << >>, 100 + n + ct))
+  \o Cross2(<< 0, 1, 2, 3, 16, 255, 256, 257 >>, << 0, 4 >>, LAMBDA n, ct : SB("NewRouterInfo", 7, [ct |-> ct, pairs |-> MapSets[3], naddr |-> n, pubsec |-> PadTo(T4, 8), pubneg |-> FALSE, pubns |-> 0], 64, << >>, 100 + n + ct))
   \o Cross2(Secs, << 0, 999999, 1000000, 999999999 >>, LAMBDA s, ns : SB("NewRouterInfo", 7, [ct |-> 4, pairs |-> MapSets[2], naddr |-> 1, pubsec |-> PadTo(s, 8), pubneg |-> FALSE, pubns |-> ns], 64, << >>, 200 + (ns % 97)))
 LSVecs ==
   Cross2(<< << 0, 40 >>, << 1, 64 >>, << 7, 64 >> >>, << 0, 1, 2, 16 >>, LAMBDA t, n : SB("NewLeaseSet", t[1], [ct |-> 0, nleases |-> n], t[2], << >>, 300 + t[1] * 20 + n))
@@ -61,6 +61,9 @@ ELSDefectVecs ==
 LS2Vecs ==
   [k \in 1..Len(MapSets) |-> SB("NewLeaseSet2", 7, [ct |-> 4, pairs |-> MapSets[k], off |-> FALSE, tst |-> 7, flags |-> 0, nkeys |-> 1, nleases |-> (k % 3) + 1, published |-> T4, expires |-> 600, offexpires |-> T4], 64, << 3 >>, 700 + k)]
   \o Cross2(<< 7, 11 >>, << 7, 11 >>, LAMBDA st, tst : SB("NewLeaseSet2", st, [ct |-> 4, pairs |-> MapSets[3], off |-> TRUE, tst |-> tst, flags |-> 1, nkeys |-> 2, nleases |-> 2, published |-> T4, expires |-> 600, offexpires |-> << 101, 36, 250, 0 >>], 64, << 3 >>, 800 + st + tst))
+  \* counts at their limits (16 keys, 16 leases) and one below
+  \o Cross2(<< 15, 16 >>, << 0, 15, 16 >>, LAMBDA nk, nl : SB("NewLeaseSet2", 7, [ct |-> 4, pairs |-> MapSets[3], off |-> FALSE, tst |-> 7, flags |-> 0, nkeys |-> nk, nleases |-> nl,
+                                                                  published |-> T4, expires |-> 600, offexpires |-> T4], 64, << 3 >>, 950 + nk + nl))
   \o SeqMap(LAMBDA f : SB("NewLeaseSet2", 11, [ct |-> 4, pairs |-> MapSets[1], off |-> FALSE, tst |-> 7, flags |-> f, nkeys |-> 1, nleases |-> 16, published |-> T4, expires |-> 65535, offexpires |-> T4], 64, << 3 >>, 900 + f), << 0, 2, 4, 6 >>)
 Vecs == RIVecs \o LSVecs \o OffVecs \o ELSVecs \o ELSOddTransientVecs \o ELSMismatchVecs \o ELSDefectVecs \o LS2Vecs
 VARIABLE done
